@@ -342,7 +342,7 @@ func genUE(r *kernel.Rand, o GenOpts, ord int) scn.UEParams {
 		p.Fill = rs.Range(1, 3)
 		p.CauseVal = int(rs.Pick(0x29, 0x29, 0x59, 0x7B, 0x1A, 0x24))
 	}
-	p.QoSRuleLen = r.Pick(0, 1, 6, 9, 32, 127, 128, 255, 256, r.Range(0, 1000))
+	p.QoSRuleLen = r.Pick(0, 1, 6, 9, 32, 127, 128, 255, 256, r.Range(0, 1000), r.Range(1000, 4000), r.Pick(1900, 1950, 2000, 2047, 2048, 2049, 4000))
 	if v := os.Getenv("VSIM_FORCE_QOS"); v != "" { // debugging aid: one fixed QoS rule length
 		fmt.Sscan(v, &p.QoSRuleLen)
 	}
